@@ -299,4 +299,3 @@ func PrintV(d *VDoc, lay VLayout) *VPrinted {
 	p.out.Text = p.sb.String()
 	return p.out
 }
-
